@@ -286,12 +286,16 @@ def check_C01(ctx, unit):
                      "; ".join(problems) if problems else "overhead = k*item_size >= sizeof(header); frame(address+overhead, slabsize-overhead, index); objects at address+off, off += item_size", f)
         # handed out
         for f in bn.get("allocate", []):
-            rets = [r for r in f.return_nodes() if r.child("val") is not None and not r.child("val").strip().get("nullc")
-                    and r.child("val").strip().kind != "CXXNullPtrLiteralExpr"]
+            from .ir import value_leaves
+            rets = []
+            for r0 in f.return_nodes():
+                for lv in value_leaves(f, r0.child("val")):
+                    if not lv.get("nullc") and lv.kind != "CXXNullPtrLiteralExpr" and not _is_nullish(lv):
+                        rets.append((r0, lv))
             problems = []
             kinds = set()
-            for r in rets:
-                v = std_unwrap(r.child("val"))
+            for r, lv in rets:
+                v = std_unwrap(lv)
                 if v.kind == "DeclRefExpr" and v.get("local") and "freelist" in (v.get("t") or ""):
                     kinds.add("small")
                     # every value that can reach the returned variable is a read of <frame>->available
@@ -321,6 +325,8 @@ def check_C01(ctx, unit):
                             problems.append("the returned block can come from %s at %s" % (_strip_ids(canon(u_)), sv.loc))
                 elif path(v) and path(v)[-1] == "address":
                     kinds.add("large")
+                elif path(_res(f, v)) and path(_res(f, v))[-1] == "address":
+                    kinds.add("large")          # (held in a named local first)
                 else:
                     problems.append("returns %s at %s" % (canon(v), r.loc))
             if kinds != {"small", "large"}:
@@ -328,7 +334,9 @@ def check_C01(ctx, unit):
             ctx.inst("E.handed-out", "%s::allocate%s" % (POOL, tag), not problems, f.loc,
                      "; ".join(problems) if problems else "small path returns the popped list head, large path the frame's object address", f)
         for f in bn.get("get_size", []):
-            vals = sorted(_usable_size_shape(f, r.child("val")) for r in f.return_nodes() if r.child("val") is not None)
+            from .ir import value_leaves
+            vals = sorted({_usable_size_shape(f, lv) for r in f.return_nodes() if r.child("val") is not None
+                           for lv in value_leaves(f, r.child("val"))})
             ok = vals == sorted(["0", "bucket_to_size(<frame>.index)", "<frame>.length"])
             ctx.inst("E.handed-out", "%s::get_size%s" % (POOL, tag), ok, f.loc, "returns %s" % vals, f)
         for f in bn.get("allocate", []):
@@ -819,7 +827,8 @@ def check_C03(ctx, unit):
              "expression of the frame length", 3)
     ctx.rule("Z.poison-order", "poisoning policies: pool memory is unpoisoned before the pool constructs or links anything in it; "
              "free: unpoison_expand, poison(item), unpoison(link word), then the link is written; allocate: poison(link word), "
-             "unpoison(length) before returning; nothing reads a frame header after it was poisoned", 8)
+             "unpoison(length) before returning; nothing reads a frame header after it was poisoned; realloc never returns "
+             "with the caller's block poisoned unless it freed it", 8)
     for inst in pool_instantiations(unit):
         fns = pool_fns(unit, inst)
         bn = _byname(fns)
@@ -917,8 +926,7 @@ def check_C03(ctx, unit):
         for f in fns:
             for n in f.events():
                 if n.kind == "CompoundAssignOperator" and path(n.children[0]) == ("this", "_usedPages"):
-                    e = _strip_ids(canon(n.children[1]))
-                    e = re.sub(r"\b(slb|fra|sup)\.", "$f.", e)
+                    e = _amount_shape(f, n.children[1])
                     exprs.setdefault(n.op, []).append((e, f, n))
         if "+=" not in exprs or "-=" not in exprs:
             raise AnalysisBroken("anchor vanished: _usedPages updates")
@@ -960,12 +968,13 @@ def check_C03(ctx, unit):
                          "unpoison_expand -> poison -> unpoison on the same block%s: %s" % (
                              ", then the link word is written" if name == "free_in_slab_" else "", ok), f)
         for f in bn.get("allocate", []):
-            rets = [r for r in f.return_nodes() if r.child("val") is not None and std_unwrap(r.child("val")).kind == "DeclRefExpr"
-                    and std_unwrap(r.child("val")).get("local") and "freelist" in (std_unwrap(r.child("val")).get("t") or "")]
+            from .ir import return_sites
+            rets = [(r, v) for r, v in return_sites(f) if v is not None and std_unwrap(v).kind == "DeclRefExpr"
+                    and std_unwrap(v).get("local") and "freelist" in (std_unwrap(v).get("t") or "")]
             ok = bool(rets)
             lenp = f.params()[0]["d"]
-            for r in rets:
-                ov_ = std_unwrap(r.child("val")).d["d"]
+            for r, v_ in rets:
+                ov_ = std_unwrap(v_).d["d"]
                 isv = lambda a: std_unwrap(a).kind == "DeclRefExpr" and std_unwrap(a).d["d"] == ov_
                 po = [p for p in pcalls(f, "poison") if p.args and isv(p.args[0]) and f.dominates(p.id, r.id)]
                 up = [u for u in pcalls(f, "unpoison") if u.args and isv(u.args[0]) and f.dominates(u.id, r.id)
@@ -1017,6 +1026,11 @@ def check_C03(ctx, unit):
                      ("memcpy at %s reads the whole usable size of a block whose tail beyond the requested length may still be "
                       "poisoned (no unpoison_expand of the old block on that path)" % bad[0]) if bad else
                      "the old block is unpoison_expand()ed before its usable size is copied, on the slab and on the large path", f0)
+            left = realloc_exit_poisoned(unit, fns, f0, pol)
+            ctx.inst("Z.poison-order", "%s::realloc: the caller's block at every exit%s" % (POOL, tag), not left, f0.loc,
+                     ("the return at %s is reached with the caller's block poisoned and not freed (e.g. a failed moving "
+                      "realloc after the in-place helper poisoned it): the still-live block is inaccessible" % left[0]) if left else
+                     "no return is reached with the caller's block poisoned unless it was freed", f0)
         for f in bn.get("free_huge_", []):
             fp = f.params()[0]
             pz = [x for x in pcalls(f, "poison") if arg0(x) == fp["n"]]
@@ -1027,6 +1041,57 @@ def check_C03(ctx, unit):
                         bad.append(n.loc)
             ctx.inst("Z.poison-order", "%s::free_huge_%s" % (POOL, tag), bool(pz) and not bad, f.loc,
                      ("frame header read at %s after it was poisoned" % bad[0]) if bad else "no header access follows poison(frame)", f)
+
+
+def realloc_exit_poisoned(unit, fns, f0, pol):
+    """Whatever realloc does to the accessibility of the caller's block on the way, it does not return with the block
+    poisoned: a failed moving realloc hands the block back exactly as usable as it was.  Returns the locations of the
+    returns reached with the block poisoned and not freed (private bool helpers folded in)."""
+    from .inline import inline_variant
+    byd_ = {g.d["did"]: g for g in fns}
+    f = inline_variant(unit, f0, lambda cal: (byd_.get(cal.get("did")) is not None and byd_[cal["did"]].get("access") in ("private", "protected")
+                                              and (byd_[cal["did"]].get("ret") or "") == "bool"))
+    pp = f0.params()[0]["d"]
+    retids = {r.id for r in f.return_nodes()}
+    left = []
+
+    def isp(a):
+        return std_unwrap(a).kind == "DeclRefExpr" and std_unwrap(a).d["d"] == pp
+
+    def tr2(n, st):
+        if is_policy_call(n, pol, ("unpoison_expand", "unpoison")) and n.args and isp(n.args[0]) and st != "freed":
+            return ["open"]
+        if is_policy_call(n, pol, ("poison",)) and n.args and isp(n.args[0]) and st != "freed":
+            return ["poisoned"]
+        if n.is_call() and n.callee and n.callee["n"] in ("free", "free_in_slab_", "free_huge_", "deallocate") \
+                and any(isp(a) for a in n.args):
+            return ["freed"]
+        if n.id in retids and st == "poisoned":
+            left.append(n.loc)
+        return [st]
+    flow.run(f, ["open"], tr2)
+    return sorted(set(left))
+
+
+def _amount_shape(f, e):
+    """Normal form of a page amount: (numerator) / (denominator) as polynomials, with locals followed to what they were
+    computed from and every frame's `length` field standing for "the length of the frame concerned"."""
+    from .poly import Poly, to_poly
+
+    def leaf(x, depth=0):
+        x = _res(f, x)
+        if x.kind == "MemberExpr" and x.m == "length":
+            return Poly.sym("<frame>.length")
+        c = x.cv() if x.kind not in ("MemberExpr",) else None
+        if c is not None:
+            return Poly.const(c)
+        if x.kind == "BinaryOperator" and x.op in ("+", "-", "*") and depth < 8:
+            return to_poly(x, lambda y: leaf(y, depth + 1))
+        return Poly.sym(_strip_ids(canon(x)))
+    x = _res(f, e)
+    if x.kind == "BinaryOperator" and x.op == "/":
+        return "(%s) / (%s)" % (to_poly(x.children[0], leaf), to_poly(x.children[1], leaf))
+    return str(to_poly(x, leaf))
 
 
 # ---- E.bucket-of-slab: the bucket whose lock and tree are used is the bucket of the slab that is touched -----------------
